@@ -530,10 +530,16 @@ func selfTest(prop string) []map[string]string {
 		ap := exec.Command("git", "apply", "--whitespace=nowarn", patch)
 		ap.Dir = work
 		if b, err := ap.CombinedOutput(); err != nil {
-			rec["result"] = "does not apply to the current tree: " + trunc(strings.TrimSpace(string(b)), 160)
-			out = append(out, rec)
-			os.RemoveAll(tmp)
-			continue
+			// the lines around the change moved (a later fix: commit touched the same function): retry with context fuzz
+			pf := exec.Command("patch", "-p1", "-s", "-F3", "--no-backup-if-mismatch", "-i", patch)
+			pf.Dir = work
+			if b2, err2 := pf.CombinedOutput(); err2 != nil {
+				rec["result"] = "does not apply to the current tree: " + trunc(strings.TrimSpace(string(b)+" / "+string(b2)), 200)
+				out = append(out, rec)
+				os.RemoveAll(tmp)
+				continue
+			}
+			rec["applied"] = "with context fuzz"
 		}
 		c := exec.Command(self, "check", "--prop", prop, "--tier", "quick")
 		c.Env = append(os.Environ(), "VCHECK_NESTED=1", "VCHECK_REPO="+work, "VCHECK_OUT="+filepath.Join(tmp, "out"))
